@@ -46,7 +46,7 @@ def obligations(tier):
     L2 = 2        # the 2-vs-2 shape family stays at |s| <= 2 (144 partitions at |s| <= 3 do not fit a tier)
     ln = lambda *v: ' and '.join(f'len({x}) <= {L}' for x in v)   # noqa: E731
     p22 = 'a1: str, a2: str, b1: str, b2: str, ta: int, tb: int, ca: int, cb: int, la: bool, lb: bool, ia: bool, ib: bool'
-    cmax = 1 if quick else 3
+    cmax = 1 if quick else 2
     r22 = [f'0 <= ta <= 1 and 0 <= tb <= 1 and 0 <= ca <= {cmax} and 0 <= cb <= {cmax}',
            ' and '.join(f'len({x}) <= {L2}' for x in ('a1', 'a2', 'b1', 'b2'))]
     obs = [
@@ -54,7 +54,7 @@ def obligations(tier):
         Ob(id=f'shape_2v2.a{la}{lb}.b{lc}{ld}', module=M, func='shape_2v2_nocolon', params=p22,
            pre=r22 + [f'len(a1) == {la} and len(a2) == {lb} and len(b1) == {lc} and len(b2) == {ld}'], timeout=T, group='shape',
            bound=f'two 2-element shapes, first shape names of length {la},{lb}, second shape names of length {lc},{ld}, '
-                 f'|s| <= {L}, all of Unicode (without ":"), 2 subtype ids, ' + ('2' if quick else '4') + ' cardinalities, link and implicit-id flags')
+                 f'|s| <= {L}, all of Unicode (without ":"), 2 subtype ids, ' + ('2' if quick else '3') + ' cardinalities, link and implicit-id flags')
         for la in range(1, L2 + 1) for lb in range(1, L2 + 1) for lc in range(0, L2 + 1) for ld in range(0, L2 + 1)
     ] + [
         Ob(id='shape_1v2', module=M, func='shape_1v2_nocolon', params='a1: str, b1: str, b2: str', pre=[ln('a1', 'b1', 'b2')],
